@@ -212,6 +212,11 @@ impl Block for AuDecode {
                 let data_offset = i.iter().take(4).copied().collect::<Vec<_>>();
                 let data_offset = u32::from_be_bytes(data_offset.try_into().unwrap());
                 i.consume(4);
+                if data_offset < 24 {
+                    return Err(Error::msg(format!(
+                        ".au data offset {data_offset} is smaller than the header"
+                    )));
+                }
                 self.state = DecodeState::WaitingHeader(data_offset as usize);
             }
             DecodeState::WaitingHeader(data_offset) => {
@@ -236,6 +241,7 @@ impl Block for AuDecode {
                         "AU block only supports one channel currently, got {channels}"
                     )));
                 }
+                i.consume(header_rest_len);
                 self.state = DecodeState::Data;
             }
             DecodeState::Data => {
